@@ -307,6 +307,44 @@ Theorem nested_in_sequence_refuted :
 Proof. exists w1_g, [], sE, w1_raw, w1_gi, w1_clean_old. exact w1_refutes. Qed.
 Print Assumptions nested_in_sequence_refuted.
 
+(* ---- items that are DIRECTLY template symbols -------------------------- *)
+
+(* A raw element in item position may be a leaf without being a token: the element
+   of a ProdSequence (its value is a list of complete sub-trees), an empty
+   bracket-less list (value None).  [den] puts no choice symbol between a container
+   and its items, so [nested] covers them; the two statements below spell the
+   entries out.  A sequence directly as list item / map value: the entry is the list
+   of its cleaned elements - the containers among them converted ... *)
+Theorem item_directly_sequence : forall E n ch nds,
+  e_seqclean E = true -> tmpl_get (e_tmpl E) n = None -> densb E ch nds ->
+  exists x ns, cl E (RSeq n ch) (MClean true false) = Ok (OTe x ns) /\ item_value x = enc (DSeq nds).
+Proof.
+  intros E n ch nds SC HT H.
+  assert (Dn : den E (RSeq n ch) (DSeq nds)) by (apply den_seq; auto).
+  destruct (nested_l E) as (N & _). destruct (N _ _ Dn) as [_ I]. exact I.
+Qed.
+Print Assumptions item_directly_sequence.
+
+(* ... and an empty row of a list of bracket-less lists denotes the empty list and
+   its entry is [], not None *)
+Theorem item_directly_empty_bracketless : forall E n o,
+  lopts_ok n o -> tmpl_get (e_tmpl E) n = Some (TL (list_init n o)) -> lo_open o = None ->
+  den E (RNull n) (DList []) /\
+  exists x ns, cl E (RNull n) (MClean true false) = Ok (OTe x ns) /\ item_value x = CList [].
+Proof.
+  intros E n o OK HT Ho.
+  destruct (bracketless_empty_l n o OK E true false HT Ho) as [V C].
+  split; [|eexists; eexists; split; [exact C|reflexivity]].
+  assert (Hopt : lo_opt o = false).
+  { destruct (lo_opt o) eqn:Eo; [|reflexivity]. pose proof (lok_opt _ _ OK Eo) as B. now rewrite Ho in B. }
+  apply (den_list E n o (RNull n) []); auto.
+  - now rewrite Hopt.
+  - unfold litems. cbn [frontier rname]. unfold list_gen. cbn [plookup lt_res list_init]. rewrite sym_eqb_refl. apply dens_nil.
+  - left. destruct (lo_afd o) eqn:Ea; [|reflexivity]. destruct (lok_afd _ _ OK Ea) as [_ B]. now rewrite Ho in B.
+  - right. discriminate.
+Qed.
+Print Assumptions item_directly_empty_bracketless.
+
 (* ---- stretch, not proved ---------------------------------------------- *)
 
 (* template_unambiguous (for lists with a delimiter): the token string of a
@@ -363,6 +401,30 @@ Example run_history :
 Proof. exact w2_history. Qed.
 Print Assumptions run_history.
 
+(* Read-only entry points (print_detailed_descr, the summary generators,
+   is_ambiguous, str/repr, reading the tables, a call that raises before a tree
+   exists, the printers of a returned tree) used anywhere between the calls: the
+   state stays what the constructor made, the results of the calls are those of the
+   same history without these steps, and the k-th call still returns the cleanup of
+   its own raw tree.  About the model; for the implementation it is what the history
+   cases with `look` steps compare. *)
+Theorem introspection_transparent : forall E ops,
+  (forall o, fst (hop_step E o) = E) /\
+  opt_cat (run_ops E ops) = run_calls E (calls_of ops) /\
+  (forall pre r post, calls_of ops = pre ++ r :: post ->
+     nth_error (opt_cat (run_ops E ops)) (length pre) = Some (cleanup E r)).
+Proof.
+  intros E ops. split; [exact (hop_state_constant E)|]. split; [exact (run_ops_calls E ops)|].
+  intros pre r post. exact (run_ops_nth E ops pre r post).
+Qed.
+Print Assumptions introspection_transparent.
+
+Example run_history_with_looks :
+  run_ops (env_of w2_g [] sE true) [HLook 0; HCall w2_raw; HLook 3; HCall w2_value_raw; HLook 8; HLook 0; HCall w2_raw] =
+  [None; Some (Ok w2_clean); None; Some (Ok (mkTe sWORD true (CStr [97]%Z))); None; None; Some (Ok w2_clean)].
+Proof. exact w2_history_looks. Qed.
+Print Assumptions run_history_with_looks.
+
 (* nullable item: "[a, ]" gives [a] (the empty last item is the final delimiter),
    "[a, , ]" gives [a, None] *)
 Example run_final_delimiter_nullable_item :
@@ -399,3 +461,17 @@ Proof.
   split; [exact w1_den|]. eexists. split; [vm_compute; reflexivity|vm_compute; reflexivity].
 Qed.
 Print Assumptions den_sequence_satisfiable.
+
+(* ... and for items that are DIRECTLY template symbols, on the trees the
+   implementation returned: "[a, b; ; c]" (rows = bracket-less lists, the middle one
+   empty) denotes [[a, b], [], [c]]; "[s {k: [p]}; ; g]" (rows = sequences, one
+   holding a map whose value is again a list of rows) *)
+Example den_direct_items_satisfiable :
+  den E9 w9_list d9 /\ den E10 w10_list d10 /\
+  cleanup E9 w9_raw = Ok (mkTe sE true (enc d9)) /\ cleanup E10 w10_raw = Ok (mkTe sE true (enc d10)) /\
+  enc d9 = CList [CList [CStr [97]%Z; CStr [98]%Z]; CList []; CList [CStr [99]%Z]].
+Proof.
+  split; [exact w9_den|]. split; [exact w10_den|]. destruct w9_w10_clean as [A B].
+  split; [exact A|]. split; [exact B|]. vm_compute. reflexivity.
+Qed.
+Print Assumptions den_direct_items_satisfiable.
